@@ -921,6 +921,10 @@ func (jc *judgeCtx) openOpts(j *imageJob) OpenOpts {
 	case 3:
 		o.Eager, o.NewVer = true, 2
 	}
+	// Check and Recover together: documented as "Open will directly try to recover"
+	if j.evIdx%3 == 2 {
+		o.Check = true
+	}
 	return o
 }
 
